@@ -12,12 +12,18 @@
 // inside file creation does hold the lock of the containing directory: while
 // such a call is parked no other request may look into that directory (it
 // would block on a mutex, which synctest.Wait does not treat as durably
-// blocked). World therefore puts every file in its own directory d<i>/f.
+// blocked). World therefore puts every file in its own directory d<i>/f, and
+// directories reached through PUTFH are wrapped (IDir): the "openchild" event
+// of an OPEN by name is logged, and can be parked, BEFORE the real
+// VirtualOpenChild takes the directory lock - park there, not in "open" /
+// "create", when the OPEN goes through a directory.
 package nfsx
 
 import (
+	"bytes"
 	"context"
 	"fmt"
+	"io"
 	"sort"
 	"sync"
 	"time"
@@ -145,7 +151,7 @@ func (memPool) NewFile(h pool.HoleSource, size uint64) (filesystem.FileReadWrite
 // the file allocator). Tag is whatever the harness last stored with SetTag
 // before letting a request run (the id of the compound being executed).
 type Event struct {
-	Kind  string // "create" | "open" | "close" | "read" | "write"
+	Kind  string // "create" | "open" | "close" | "read" | "write" | "openchild" (Leaf = directory index)
 	Leaf  int    // creation index of the leaf
 	Share int    // share mask (open/close/create)
 	Off   uint64 // read/write
@@ -169,6 +175,7 @@ func (e Event) String() string {
 // Gate parks the next matching leaf call until Release.
 type Gate struct {
 	leaf    int // -1: any leaf
+	tag     int // -1: any tag
 	kind    string
 	entered chan struct{}
 	release chan struct{}
@@ -232,8 +239,12 @@ func (w *World) LogLen() int {
 
 // Park arms a one-shot gate: the next call of `kind` ("open", "read",
 // "write", "create") on leaf (creation index, -1 = any) blocks until Release.
-func (w *World) Park(leaf int, kind string) *Gate {
-	g := &Gate{leaf: leaf, kind: kind, entered: make(chan struct{}), release: make(chan struct{})}
+func (w *World) Park(leaf int, kind string) *Gate { return w.ParkFor(-1, leaf, kind) }
+
+// ParkFor is Park restricted to calls made while the current tag (SetTag) is
+// `tag`, i.e. by the request the harness started under that tag.
+func (w *World) ParkFor(tag, leaf int, kind string) *Gate {
+	g := &Gate{leaf: leaf, tag: tag, kind: kind, entered: make(chan struct{}), release: make(chan struct{})}
 	w.mu.Lock()
 	w.gates = append(w.gates, g)
 	w.all = append(w.all, g)
@@ -275,7 +286,7 @@ func (w *World) event(e Event) {
 	w.log = append(w.log, e)
 	var g *Gate
 	for i, c := range w.gates {
-		if c.kind == e.Kind && (c.leaf == -1 || c.leaf == e.Leaf) {
+		if c.kind == e.Kind && (c.leaf == -1 || c.leaf == e.Leaf) && (c.tag == -1 || c.tag == e.Tag) {
 			g = c
 			w.gates = append(w.gates[:i:i], w.gates[i+1:]...)
 			break
@@ -336,6 +347,54 @@ func (l *ILeaf) VirtualWrite(ctx context.Context, buf []byte, off uint64) (int, 
 	return l.LinkableLeaf.VirtualWrite(ctx, buf, off)
 }
 
+// IDir wraps a directory resolved from a file handle.
+type IDir struct {
+	virtual.Directory
+	w  *World
+	ID int // index of d<i>; len(DirHandles) for the root; -1 unknown
+}
+
+func (d *IDir) VirtualOpenChild(ctx context.Context, name path.Component, share virtual.ShareMask, createAttributes *virtual.Attributes, existingOptions *virtual.OpenExistingOptions, requested virtual.AttributesMask, openedFileAttributes *virtual.Attributes) (virtual.Leaf, virtual.AttributesMask, virtual.ChangeInfo, virtual.Status) {
+	d.w.event(Event{Kind: "openchild", Leaf: d.ID, Share: int(share), Trunc: existingOptions != nil && existingOptions.Truncate})
+	return d.Directory.VirtualOpenChild(ctx, name, share, createAttributes, existingOptions, requested, openedFileAttributes)
+}
+
+type recordingReader struct {
+	r   io.ByteReader
+	buf []byte
+}
+
+func (r *recordingReader) ReadByte() (byte, error) {
+	b, err := r.r.ReadByte()
+	if err == nil {
+		r.buf = append(r.buf, b)
+	}
+	return b, err
+}
+
+// resolveHandle is the HandleResolver given to the OpenedFilesPool: the NFS
+// handle allocator's, with directories wrapped in IDir.
+func (w *World) resolveHandle(r io.ByteReader) (virtual.DirectoryChild, virtual.Status) {
+	rr := &recordingReader{r: r}
+	child, s := w.HA.ResolveHandle(rr)
+	if s != virtual.StatusOK {
+		return child, s
+	}
+	if dir, _ := child.GetPair(); dir != nil {
+		id := -1
+		if bytes.Equal(rr.buf, w.RootHandle) {
+			id = len(w.DirHandles)
+		}
+		for i, h := range w.DirHandles {
+			if bytes.Equal(rr.buf, h) {
+				id = i
+			}
+		}
+		return virtual.DirectoryChild{}.FromDirectory(&IDir{Directory: dir, w: w, ID: id}), s
+	}
+	return child, s
+}
+
 // ---------------------------------------------------------------------------
 // construction
 
@@ -355,7 +414,7 @@ func NewWorld(seed uint64, nFiles int) *World {
 		virtual.NewHandleAllocatingSymlinkFactory(virtual.NewBaseSymlinkFactory(defaultAttributesSetter), w.HA.New(), path.UNIXFormat),
 		util.DefaultErrorLogger, w.HA, sort.Sort, func(string) bool { return false }, w.Clock,
 		virtual.CaseSensitiveComponentNormalizer, defaultAttributesSetter, virtual.NoNamedAttributesFactory)
-	w.Pool = re_nfsv4.NewOpenedFilesPool(w.HA.ResolveHandle)
+	w.Pool = re_nfsv4.NewOpenedFilesPool(w.resolveHandle)
 
 	ctx := context.Background()
 	var attrs virtual.Attributes
